@@ -7,36 +7,33 @@ Import ListNotations.
 Open Scope N_scope.
 
 (* the regenerated schemas satisfy the conditions of the theorems: tags strictly ascending and < 256, declared
-   defaults on scalar members only, by-value struct nesting of depth <= 2 *)
-Theorem env0_wf_schema : wf_schema 2 env0.
+   defaults on scalar members only, by-value struct nesting of depth <= 8 (robust against added IDL structs) *)
+Theorem env0_wf_schema : wf_schema 8 env0.
 Proof. apply wf_schema_b_sound. vm_compute. reflexivity. Qed.
 
-(* every struct type of the tree whose type graph is finite (all but the recursive test struct) has a static
-   recursion bound that the model's fuel covers *)
-Lemma env0_static : forall sid, tfin 8 env0 (TStruct sid) = true -> (tneed 8 env0 (TStruct sid) + 2 <= 64)%nat.
-Proof.
-  intros sid Hfin. destruct (Nat.ltb sid (length env0)) eqn:E.
-  - apply Nat.ltb_lt in E.
-    assert (H : forallb (fun s => implb (tfin 8 env0 (TStruct s)) (tneed 8 env0 (TStruct s) + 2 <=? 64)%nat) (seq 0 (length env0)) = true)
-      by (vm_compute; reflexivity).
-    rewrite forallb_forall in H. specialize (H sid). rewrite Hfin in H. cbn [implb] in H.
-    apply Nat.leb_le. apply H. apply in_seq. lia.
-  - apply Nat.ltb_ge in E. rewrite (tneed_overflow 7 env0 sid E). lia.
-Qed.
-
-(* C03 on the code's schemas: every well-typed value of every non-recursive generated struct type round-trips *)
-Theorem env0_roundtrip : forall sid vs, tfin 8 env0 (TStruct sid) = true ->
+(* C03 on the code's schemas: every well-typed value of every generated struct type with a finite type graph whose
+   static depth bound fits the model's fuel constant round-trips; the two side conditions are decided by
+   evaluation for each named struct type (examples below) - nothing here depends on how many struct types the
+   tree generates or on their numbering *)
+Definition fits_model (sid : nat) : bool :=
+  tfin 8 env0 (TStruct sid) && (tneed 8 env0 (TStruct sid) + 8 <=? 64)%nat.
+Lemma fits_model_spec sid : fits_model sid = true ->
+  tfin 8 env0 (TStruct sid) = true /\ (tneed 8 env0 (TStruct sid) + 8 <= 64)%nat.
+Proof. unfold fits_model. intros H. apply andb_true_iff in H. destruct H as [A B]. apply Nat.leb_le in B. tauto. Qed.
+Theorem env0_roundtrip : forall sid vs, fits_model sid = true ->
   has_type env0 (TStruct sid) (VStruct vs) ->
   decode env0 sid (encode env0 sid (VStruct vs)) = DOk (norm_struct env0 sid (VStruct vs)) [].
 Proof.
-  intros sid vs Hfin Hty. apply (roundtrip_struct_static env0 2 8); try assumption.
-  - apply env0_wf_schema.
-  - lia.
-  - now apply env0_static.
+  intros sid vs Hm Hty. destruct (fits_model_spec sid Hm) as [Hfin Hn].
+  apply (roundtrip_struct_static env0 8 8); try assumption; [apply env0_wf_schema|lia].
 Qed.
-Example env0_nonrecursive :
-  filter (fun sid => negb (tfin 8 env0 (TStruct sid))) (seq 0 (length env0)) = [sid_verifidl_Rec].
-Proof. vm_compute. reflexivity. Qed.
+(* the packet types every process decodes from the network and the test IDL's struct types are covered; the
+   recursive test struct is not (explicit fuel hypothesis, rec1_roundtrip below) *)
+Example env0_covered :
+  forallb fits_model [sid_requestf_RequestPacket; sid_requestf_ResponsePacket; sid_verifidl_Containers;
+                      sid_verifidl_Inner; sid_verifidl_Scalars; sid_verifidl_Tail] = true
+  /\ tfin 8 env0 (TStruct sid_verifidl_Rec) = false.
+Proof. vm_compute. split; reflexivity. Qed.
 
 (* ---------- non-vacuity: concrete values ---------- *)
 Definition inner1 : val := VStruct [VInt 5; VStr [100; 102; 108; 116]; VList [VInt 9]; VInt 77].
@@ -79,7 +76,7 @@ Definition rec1 : list val :=
 Example rec1_roundtrip :
   decode env0 sid_verifidl_Rec (encode env0 sid_verifidl_Rec (VStruct rec1)) = DOk (VStruct rec1) [].
 Proof.
-  rewrite (roundtrip_struct env0 2).
+  rewrite (roundtrip_struct env0 8).
   - vm_compute. reflexivity.
   - apply env0_wf_schema.
   - lia.
@@ -100,33 +97,29 @@ Example inner2_extras :
   /\ decode env0 sid_verifidl_Inner (encode env0 sid_verifidl_Inner (VStruct inner2)) = DOk (VStruct inner2) [].
 Proof. vm_compute. split; reflexivity. Qed.
 
-(* C05 on the code's schemas: the model's fuel never runs out on any bytes for every generated struct type with
-   a finite type graph; the 21 struct types without vector/array members decode any bytes to a value or an error *)
-Theorem env0_fuel : forall sid prior bs, tfin 8 env0 (TStruct sid) = true -> decode_into env0 sid prior bs <> DFuel.
-Proof. intros sid prior bs Hfin. apply (decode_fuel env0 8); [assumption|]. pose proof (env0_static sid Hfin). lia. Qed.
-Theorem env0_total : forall sid prior bs, safe_ty 8 env0 (TStruct sid) = true -> total_out (decode_into env0 sid prior bs).
+(* C05 on the code's schemas: the model's fuel never runs out on any bytes for every generated struct type that
+   fits the model; the struct types without vector/array members decode any bytes to a value or an error *)
+Theorem env0_fuel : forall sid prior bs, fits_model sid = true -> decode_into env0 sid prior bs <> DFuel.
+Proof. intros sid prior bs Hm. destruct (fits_model_spec sid Hm) as [Hfin Hn]. apply (decode_fuel env0 8); [assumption|lia]. Qed.
+Theorem env0_total : forall sid prior bs, safe_ty 8 env0 (TStruct sid) = true -> fits_model sid = true ->
+  total_out (decode_into env0 sid prior bs).
 Proof.
-  intros sid prior bs Hs. apply (decode_total env0 8); [assumption|].
-  pose proof (env0_static sid (safe_tfin env0 8 _ Hs)). lia.
+  intros sid prior bs Hs Hm. destruct (fits_model_spec sid Hm) as [_ Hn]. apply (decode_total env0 8); [assumption|lia].
 Qed.
-Example env0_safe_types :
-  filter (fun sid => safe_ty 8 env0 (TStruct sid)) (seq 0 (length env0))
-  = [0; 1; 2; 3; 4; 5; 6; 8; 9; 10; 11; 12; 13; 14; 15; 17; 20; 21; 22; 23; 27]%nat.
-Proof. vm_compute. reflexivity. Qed.
+(* e.g. the scalar test struct and the endpoint/auth structs are total on all bytes; the request packet is not
+   (its byte vector can arrive as a LIST: the recorded finding) *)
+Example env0_safe_examples :
+  forallb (fun sid => safe_ty 8 env0 (TStruct sid) && fits_model sid)
+          [sid_verifidl_Scalars; sid_endpointf_EndpointF; sid_authf_BasicAuthInfo; sid_authf_TokenKey; sid_statf_StatMicMsgHead] = true
+  /\ safe_ty 8 env0 (TStruct sid_requestf_RequestPacket) = false.
+Proof. vm_compute. split; reflexivity. Qed.
 
 (* C06 on the code's schemas: the prefix theorem for every generated struct type all of whose members are scalar *)
 Definition flat_b (fds : schema) : bool := forallb (fun fd => scalar_ty (fty fd)) fds.
 Lemma flat_b_sound fds : flat_b fds = true -> flat fds.
 Proof. unfold flat_b, flat. rewrite forallb_forall. intros H. apply Forall_forall. exact H. Qed.
-Lemma env0_members_bound sid : (length (fields_of env0 sid) + 4 <= 64)%nat.
-Proof.
-  destruct (Nat.ltb sid (length env0)) eqn:E.
-  - apply Nat.ltb_lt in E.
-    assert (H : forallb (fun s => (length (fields_of env0 s) + 4 <=? 64)%nat) (seq 0 (length env0)) = true) by (vm_compute; reflexivity).
-    rewrite forallb_forall in H. apply Nat.leb_le. apply H. apply in_seq. lia.
-  - apply Nat.ltb_ge in E. unfold fields_of. rewrite nth_overflow by assumption. cbn [length]. lia.
-Qed.
 Theorem env0_prefix_flat : forall sid vs p q, flat_b (fields_of env0 sid) = true ->
+  (length (fields_of env0 sid) + 4 <= 64)%nat ->
   has_type env0 (TStruct sid) (VStruct vs) -> encode env0 sid (VStruct vs) = p ++ q ->
   decode env0 sid p = DErr \/
   exists i h ps, (i <= length (fields_of env0 sid))%nat /\
@@ -135,29 +128,28 @@ Theorem env0_prefix_flat : forall sid vs p q, flat_b (fields_of env0 sid) = true
     Forall2 (fun fd p => prior_ok env0 (fty fd) (fdef fd) p) (fields_of env0 sid) ps /\
     decode env0 sid p = DOk (VStruct (firstn i (norm_fields env0 vs (fields_of env0 sid)) ++ skipn i ps)) [].
 Proof.
-  intros sid vs p q Hfl Hty HE. apply (prefix_flat env0 2 sid vs p q); try assumption.
+  intros sid vs p q Hfl Hlen Hty HE. apply (prefix_flat env0 8 sid vs p q); try assumption.
   - apply env0_wf_schema.
   - lia.
   - now apply flat_b_sound.
-  - apply env0_members_bound.
 Qed.
-Example env0_flat_types :
-  filter (fun sid => flat_b (fields_of env0 sid)) (seq 0 (length env0)) = [3; 4; 6; 9; 10; 11; 12; 13; 14; 15; 17; 20; 22; 23; 27]%nat.
+Example env0_flat_examples :
+  forallb (fun sid => flat_b (fields_of env0 sid) && (length (fields_of env0 sid) + 4 <=? 64)%nat)
+          [sid_verifidl_Scalars; sid_endpointf_EndpointF; sid_authf_BasicAuthInfo; sid_authf_TokenKey] = true.
 Proof. vm_compute. reflexivity. Qed.
 
 (* the declared defaults of the regenerated schemas are values of their member's type; with that, the round trip
    on the code's schemas in the property's own terms: an equal value comes back *)
 Theorem env0_defaults_typed : defaults_typed env0.
 Proof. apply defaults_typed_b_sound. vm_compute. reflexivity. Qed.
-Theorem env0_roundtrip_equal : forall sid vs, tfin 8 env0 (TStruct sid) = true ->
+Theorem env0_roundtrip_equal : forall sid vs, fits_model sid = true ->
   has_type env0 (TStruct sid) (VStruct vs) ->
   exists v', decode env0 sid (encode env0 sid (VStruct vs)) = DOk v' [] /\ veq env0 (TStruct sid) v' (VStruct vs).
 Proof.
-  intros sid vs Hfin Hty. apply (roundtrip_equal env0 2 8); try assumption.
+  intros sid vs Hm Hty. destruct (fits_model_spec sid Hm) as [Hfin Hn]. apply (roundtrip_equal env0 8 8); try assumption.
   - apply env0_wf_schema.
   - apply env0_defaults_typed.
   - lia.
-  - now apply env0_static.
 Qed.
 (* -0.0 in an optional float member with default +0.0 is omitted and comes back as +0.0: equal under ==, not identical *)
 Example norm_not_identity :
@@ -167,7 +159,7 @@ Proof. vm_compute. reflexivity. Qed.
 
 (* C06 on the code's schemas, every generated struct type with a finite type graph (containers and nested structs
    included): the general prefix theorem *)
-Theorem env0_prefix_general : forall sid vs p q, tfin 8 env0 (TStruct sid) = true ->
+Theorem env0_prefix_general : forall sid vs p q, fits_model sid = true ->
   has_type env0 (TStruct sid) (VStruct vs) -> encode env0 sid (VStruct vs) = p ++ q ->
   bad (decode env0 sid p) \/
   exists i h ps, (i <= length (fields_of env0 sid))%nat /\
@@ -176,10 +168,8 @@ Theorem env0_prefix_general : forall sid vs p q, tfin 8 env0 (TStruct sid) = tru
     Forall2 (fun fd pr => prior_ok env0 (fty fd) (fdef fd) pr) (fields_of env0 sid) ps /\
     decode env0 sid p = DOk (VStruct (firstn i (norm_fields env0 vs (fields_of env0 sid)) ++ skipn i ps)) [].
 Proof.
-  intros sid vs p q Hfin Hty HE. apply (prefix_general env0 2 8 sid vs p q); try assumption.
-  - apply env0_wf_schema.
-  - lia.
-  - now apply env0_static.
+  intros sid vs p q Hm Hty HE. destruct (fits_model_spec sid Hm) as [Hfin Hn].
+  apply (prefix_general env0 8 8 sid vs p q); try assumption; [apply env0_wf_schema|lia].
 Qed.
 
 (* the side condition tneed + k <= 64 (and the fuel hypothesis for recursive types) is a limit of the MODEL, not of
@@ -200,14 +190,12 @@ Proof. vm_compute. repeat split; reflexivity. Qed.
 
 (* C04 on the code's schemas: unknown fields at every struct level change nothing, for every generated struct type
    with a finite type graph *)
-Theorem env0_extras_nested : forall sid vs Js body Jl, tfin 8 env0 (TStruct sid) = true ->
+Theorem env0_extras_nested : forall sid vs Js body Jl, fits_model sid = true ->
   has_type env0 (TStruct sid) (VStruct vs) ->
   xfields env0 (fields_of env0 sid) vs Js body -> junks_ok None (fields_of env0 sid) Js -> trailing_ok (fields_of env0 sid) Jl ->
   decode env0 sid (body ++ ser_fields Jl) = DOk (norm_struct env0 sid (VStruct vs)) (ser_fields Jl)
   /\ decode env0 sid (encode env0 sid (VStruct vs)) = DOk (norm_struct env0 sid (VStruct vs)) [].
 Proof.
-  intros sid vs Js body Jl Hfin Hty Hx HJ HJl. apply (extras_nested env0 2 8 sid vs Js body Jl); try assumption.
-  - apply env0_wf_schema.
-  - lia.
-  - now apply env0_static.
+  intros sid vs Js body Jl Hm Hty Hx HJ HJl. destruct (fits_model_spec sid Hm) as [Hfin Hn].
+  apply (extras_nested env0 8 8 sid vs Js body Jl); try assumption; [apply env0_wf_schema|lia].
 Qed.
